@@ -94,6 +94,10 @@ def _gen_body_src(rng, pnames, allow_opaque_params, kind):
             lines.append("def inner(%s, k=%s):\n    return g(%s, key=%s)" % (a, _e(rng, names, 1), a, _e(rng, names, 1)))
         elif r < 0.92:
             lines.append("res_ = [fn_(_i) for _i in %s]" % rng.choice(head_names))
+        elif r < 0.95 and kind == "argparse":
+            # a call that only LOOKS like the emitter's own: add_argument on another receiver is a body statement
+            lines.append(rng.choice(["grp_.add_argument('--zz', type=int)", "registry.add_argument('--flag')",
+                                     "fn_.description = 'not the parser'"]))
         else:
             lines.append(rng.choice(["import os", "pass", "assert q", "while False:\n    break",
                                      "with open(q) as fh_:\n    res_ = fh_.read()"]))
